@@ -4,7 +4,7 @@
 """
 import re
 from .model import model
-from .e3_bounds import Bounds, _shape
+from .e3_bounds import conjuncts, structural_cond, Bounds, _shape
 from .e_window import view_by_name, flow
 from .e_typed_props import inert_none_path
 from .solve import Hyps, entails_h, loop_hyps
@@ -17,20 +17,58 @@ from .sir import loc
 
 # sites whose safety needs an algebraic invariant outside the domains (one line of reason each).
 # key: (view, kind, regex on the rendered operand)
-EXCEPTIONS = [
-    ('Alma', 'fdiv', r'wtd_sum.*cum_wt|cum_wt', 'cum_wt is the sum of the positive exp(·) weights of the values in the (non-empty) window'),
-    ('HLNormalizer', 'fdiv', r'in\.max - in\.min', 'min <= last <= max (tracked extrema) and the branch excludes last == min == max, so max > min'),
-    ('BinaryEntropy', 'flog2', r'.', 'log2(0) = -inf gives 0·(-inf) = NaN, masked by the is_nan reset that post-dominates it'),
-    ('WelfordRolling', 'fsqrt', r'.', 'population variance s/n with s a sum of Welford increments (x-old_mean)(x-new_mean) >= 0'),
-    ('RoofingFilter', 'fdiv', r'cos\(', 'cos(4.4422/N) != 0 for every integer N >= 2 (checked per N under C09/C11)'),
-    ('LnReturn', 'fln', r'.', 'input domain precondition: positive values, so current/last > 0'),
-    ('Drawdown', 'fdiv', r'peak', 'input domain precondition: positive values, so peak > 0'),
-    ('Divide', 'fdiv', r'.', 'property precondition: divisor non-zero (debug_assert_ne)'),
-    ('EhlersFisherTransform', 'fln', r'clamp', '(1+s)/(1-s) with s clamped to ±0.99 lies in [0.005, 199]'),
-    ('PolarizedFractalEfficiency', 'fdiv', r'fold', 's is a sum of N-2 >= 1 terms sqrt(d²+1) >= 1'),
-    ('Alma', 'fdiv', r'^arg\.sigma$', 'constructor precondition: sigma > 0 (admissible parameters)'),
-    ('Alma', 'fdiv', r'in\.s\) \* in\.s', 's = N/sigma != 0 for N >= 1 and sigma > 0, so 2·s·s > 0'),
+# Reviewed facts the interval analysis may use. Unlike an exception, a fact does not discharge anything by itself: the
+# obligation must still be *derived* from the facts plus the guards on the path, so removing or weakening a guard is reported.
+# (view, relation, lhs, rhs, reason); operands: 'in.f' = field at entry, 'arg.a' = constructor argument, a number, or the
+# rendering of a child-output term such as 'b.out'.
+ASSUMED = [
+    ('Alma', 'gt', 'arg.sigma', 0.0, 'constructor precondition: sigma > 0 (admissible parameters)'),
+    ('Alma', 'gt', 'in.s', 0.0, 's = N/sigma is set once by the constructor from N >= 1 and sigma > 0 and never written by update (census)'),
+    ('Alma', 'ge', 'in.cum_wt', 0.0, 'cum_wt mirrors the sum of the weights stored in q_wtd (C02 M1); every stored weight is an exp(·) > 0'),
+    ('Alma', 'ge', 'in.cum_wt', 'front(in.q_wtd)', 'cum_wt is the sum of the stored positive weights, front(q_wtd) is one of them (C02 M1)'),
+    ('Divide', 'ne', 'b.out', 0.0, 'property domain: divisor non-zero'),
+    ('Drawdown', 'gt', 'view.out', 0.0, 'property domain: positive inputs'),
+    ('Drawdown', 'ge', 'in.peak', 0.0, 'peak starts at the smallest positive value and only ever takes inner outputs (> 0 by the domain)'),
+    ('LnReturn', 'gt', 'in.current_val', 0.0, 'holds inner outputs, positive by the property domain'),
+    ('LnReturn', 'gt', 'in.last_val', 0.0, 'holds inner outputs, positive by the property domain'),
+    ('HLNormalizer', 'le', 'in.min', 'in.last', 'min is the minimum of the window (C02 X1) and last is its newest element'),
+    ('HLNormalizer', 'le', 'in.last', 'in.max', 'max is the maximum of the window (C02 X1) and last is its newest element'),
+    ('WelfordRolling', 'ge', 'in.s', 0.0, 's is a sum of Welford increments (x-old_mean)(x-new_mean); new_mean lies between old_mean and x, so each is >= 0'),
 ]
+
+# Sites no interval argument reaches; each is tied to the construct that makes it safe (checked where applied).
+EXCEPTIONS = [
+    ('BinaryEntropy', 'flog2', r'.', 'log2(0) = -inf gives 0·(-inf) = NaN, masked by the is_nan reset that post-dominates it'),
+]
+
+
+def assumed_facts(vname, terms):
+    """Condition terms for the reviewed facts of view `vname`, resolved against the subterms of `terms`."""
+    by_str = None
+    out = []
+    for (vn, rel, lhs, rhs, reason) in ASSUMED:
+        if vn != vname:
+            continue
+        ops = []
+        for x in (lhs, rhs):
+            if isinstance(x, (int, float)):
+                ops.append([lit(float(x), 'f')])
+            elif x.startswith('in.') and '(' not in x:
+                ops.append([('in', x[3:])])
+            elif x.startswith('arg.'):
+                ops.append([('arg', x[4:])])
+            else:
+                if by_str is None:
+                    by_str = {}
+                    for t in terms:
+                        for st in subterms(t):
+                            if st[0] in ('op', 'child', 'childlast', 'payload', 'front', 'back', 'get'):
+                                by_str.setdefault(tstr(st), set()).add(st)
+                ops.append(list(by_str.get(x, ())))
+        for l in ops[0]:
+            for r in ops[1]:
+                out.append(op(rel, l, r))
+    return out
 
 
 def int_lb_factory(H):
@@ -116,7 +154,7 @@ class Ready:
             ctx = self.B.ctx(vg)
             base = Hyps(entry, ctx)
             for ev in vg.events:
-                if ev.kind not in ('fdiv', 'fln', 'flog2', 'flog10', 'fsqrt', 'debug_assert', 'assert'):
+                if ev.kind not in ('fdiv', 'fln', 'flog2', 'flog10', 'fsqrt', 'fdomain', 'debug_assert', 'assert'):
                     continue
                 pc = [c for c in ev.pc]
                 H = base.extended(pc + loop_hyps(ev.pc, ctx))
@@ -133,21 +171,32 @@ class Ready:
                     if it[0] == 'iter':
                         return entails_h(H, op('ge', ('len', it[1]), lit(1, 'i')))
                     return False
-                fs = FSign([c for c in pc if not (isinstance(c, tuple) and c and c[0] == 'inloop')], int_lb_factory(H), vg.loops, trip_pos)
+                ev_terms = [x for x in ev.data if isinstance(x, tuple)] + [c for c in pc if isinstance(c, tuple)]
+                if ev.kind in ('debug_assert', 'assert'):
+                    ev_terms = list(ev.data[1]) + [c for c in pc if isinstance(c, tuple)]
+                facts = assumed_facts(v.name, ev_terms)
+                if facts:
+                    counters['assumed-fact-uses'] = counters.get('assumed-fact-uses', 0) + 1
+                fs0 = FSign([c for c in pc if not (isinstance(c, tuple) and c and c[0] == 'inloop')] + facts, int_lb_factory(H), vg.loops, trip_pos)
+                fs = AllCases(fs0.cases())
                 if ev.kind in ('debug_assert', 'assert'):
                     name, args = ev.data
-                    if name != 'assert' or not args:
-                        continue
-                    c = args[0]
-                    if c[0] == 'op' and c[1] == 'is_finite':
-                        counters['finite-asserts'] = counters.get('finite-asserts', 0) + 1
-                        continue
-                    if c[0] == 'op' and c[1] in ('ge', 'gt', 'le', 'lt', 'ne') and c[2][1][0] == 'lit' and not entails_is_int(c, ctx):
-                        x = c[2][0]
-                        r = fs.rng(x)
-                        val = float(c[2][1][1])
-                        ok = {'ge': r.lo >= val, 'gt': r.lo > val or (r.lo == val and r.lo_open), 'le': r.hi <= val,
-                              'lt': r.hi < val or (r.hi == val and r.hi_open), 'ne': (not r.contains_zero()) if val == 0 else False}[c[1]]
+                    is_ctor = label not in ('update', 'last') and any(mm['fn'].name == label for mm in self.m.ctor_models)
+                    if name == 'assert' and args:
+                        conds = conjuncts(args[0])
+                    elif name in ('assert_eq', 'assert_ne') and len(args) == 2:
+                        conds = [op('eq' if name == 'assert_eq' else 'ne', args[0], args[1])]
+                    else:
+                        conds = []
+                    for c in conds:
+                        if c[0] == 'op' and c[1] == 'is_finite':
+                            counters['finite-asserts'] = counters.get('finite-asserts', 0) + 1
+                            continue
+                        if structural_cond(c, ctx):
+                            continue    # integers / presence: decided by the entailment engine (E3 assert-int)
+                        if is_ctor and not (c[0] == 'op' and c[1] in ('ge', 'gt', 'le', 'lt', 'ne') and c[2][1][0] == 'lit'):
+                            continue    # constructor preconditions on its arguments are the documented contract
+                        ok, r = judge_float_cond(c, fs)
                         counters['value-asserts'] = counters.get('value-asserts', 0) + 1
                         R.ob('Q4-assert', '%s:%s:%s' % (v.name, label, _shape(c)), ok,
                              'assertion %s follows from the guards on its path (range %s)' % (tstr(c)[:60], r) if ok else
@@ -160,6 +209,12 @@ class Ready:
                     ok = not r.contains_zero()
                     what = 'divisor %s' % tstr(d)[:70]
                     need = 'non-zero'
+                elif ev.kind == 'fdomain':
+                    d = ev.data[1]
+                    r = fs.rng(d)
+                    ok = r.positive() if ev.data[0] == 'positive' else (r.lo >= -1.0 and r.hi <= 1.0)
+                    what = '%s %s' % (ev.data[2], tstr(d)[:70])
+                    need = '> 0' if ev.data[0] == 'positive' else 'within [-1, 1]'
                 elif ev.kind == 'fsqrt':
                     d = ev.data[0]
                     r = fs.rng(d)
@@ -189,6 +244,48 @@ class Ready:
                 R.ob('Q4-' + ev.kind, key, ok, '%s is %s (%s)' % (what, need, why) if ok else
                      '%s is not shown to be %s on this path (%s; guards: %s): a finite input can produce NaN/inf' % (
                          what, need, why, [tstr(c)[:50] for c in ev.pc][-3:]), loc(ev.node))
+
+
+class AllCases:
+    """A family of FSign instances covering all states; a range query returns the hull over the cases."""
+    def __init__(self, cases):
+        self.cs = cases
+
+    def rng(self, t):
+        r = None
+        for c in self.cs:
+            x = c.rng(t)
+            r = x if r is None else r.hull(x)
+        return r
+
+
+def judge_float_cond(c, fs):
+    """Decide a float-valued assertion by interval analysis; (ok, range or reason). Anything not understood is not ok."""
+    if not (isinstance(c, tuple) and c and c[0] == 'op'):
+        return False, 'shape not understood'
+    o = c[1]
+    if o == 'not' and c[2][0][0] == 'op' and c[2][0][1] == 'is_nan':
+        return True, 'finite operands'
+    if o == 'or':
+        rs = [judge_float_cond(x, fs) for x in c[2]]
+        return any(r[0] for r in rs), rs[0][1]
+    if o not in ('ge', 'gt', 'le', 'lt', 'ne', 'eq') or len(c[2]) != 2:
+        return False, 'shape not understood'
+    x, y = c[2]
+    if y[0] == 'lit':
+        r = fs.rng(x)
+        val = float(y[1])
+    elif x[0] == 'lit':
+        r = fs.rng(y)
+        val = float(x[1])
+        o = {'ge': 'le', 'gt': 'lt', 'le': 'ge', 'lt': 'gt'}.get(o, o)
+    else:
+        r = fs.rng(op('sub', x, y))
+        val = 0.0
+    ok = {'ge': r.lo >= val, 'gt': r.lo > val or (r.lo == val and r.lo_open), 'le': r.hi <= val,
+          'lt': r.hi < val or (r.hi == val and r.hi_open),
+          'ne': ((not r.contains_zero()) if val == 0 else (r.lo > val or r.hi < val)), 'eq': r.lo == r.hi == val}[o]
+    return ok, r
 
 
 def entails_is_int(c, ctx):
